@@ -97,7 +97,8 @@ def c13_jobs(tier):
 
 
 def c15_jobs(tier):
-    return [sim("c15-grid", "c15", require_counters=["blocking_pull_timed_against_limit", "blocked_pull_woken_by_publish", "stream_limit_checked"])]
+    return [sim("c15-grid", "c15", require_counters=["blocking_pull_timed_against_limit", "blocked_pull_woken_by_publish", "stream_limit_checked", "blocking_pull_after_drain_timed"]),
+            sim("c15-waiters", "c06", params={"n": 2000}, require_nontrivial=False)]
 
 
 def conc(name, profile, **kw):
